@@ -446,6 +446,7 @@ pub fn monitored_swap(acc: &mut Acc, wd: &mut TrioWorld, pl: &SwapPlan) -> bool 
                 acc.violation("C14", "Q3/trio/pending-fee-delta!=protocol_fee", detail(wd, json!({"pre": format!("{pre:?}"), "post": format!("{post:?}"), "step": what})));
             }
             if pre.supply[ask].wrapping_sub(post.supply[ask]) != bf {
+                acc.violation("C07", "A3/trio/burn-fee-charged-but-supply-not-reduced-by-it", detail(wd, json!({"burn_fee": bf.to_string(), "step": what})));
                 acc.violation("C14", "Q4/trio/supply-drop!=burn_fee", detail(wd, json!({"step": what})));
             }
             if post.bal[from].wrapping_sub(pre.bal[from]) != pl.amount || pre.bal[ask].wrapping_sub(post.bal[ask]) != ret.wrapping_add(bf) || post.bal[other] != pre.bal[other] {
